@@ -11,7 +11,7 @@ MODELLED_FUNCS = {
     'sugar/_io/stockholm.py': ['is_stockholm', 'read_stockholm', 'write_stockholm'],
     'sugar/_io/sjson.py': ['is_sjson', '_SJSONEncoder.default', '_json_hook', 'read_sjson', 'write_sjson'],
     'sugar/_io/gff.py': ['is_gff', 'read_gff', 'write_gff'],
-    'sugar/_io/main.py': ['read', 'write', 'detect', 'detect_ext'],
+    'sugar/_io/main.py': ['read', 'iter_', 'write', 'detect', 'detect_ext'],
     'sugar/core/seq.py': ['BioSeq.__init__'],
 }
 FMTS = ['fasta', 'stockholm', 'sjson', 'gff']
@@ -828,7 +828,7 @@ def detectable(fmt, text):
 
 def gen_cases(rng, tier):
     cases = []
-    vias = ['str', 'str', 'path', 'ext', 'handle', 'sio', 'auto', 'auto-sio', 'auto-bytes', 'auto-txt']
+    vias = ['str', 'str', 'path', 'ext', 'handle', 'sio', 'auto', 'auto-sio', 'auto-bytes', 'auto-txt', 'iter', 'iter-path', 'seqwrite']
     n_cycle, n_app, n_read = (12000, 2000, 9000) if tier == 'thorough' else (550, 120, 500)
     # a few fixed regression shapes
     for fmt in FMTS:
@@ -866,7 +866,7 @@ def gen_cases(rng, tier):
             fmt, text = 'stockholm', g_stk_text(rng)
         else:
             fmt, text = 'gff', g_gff_text(rng)
-        via = rng.choice(['str', 'path', 'handle'] if '\r' in text else ['str', 'path', 'handle', 'sio'])
+        via = rng.choice(['str', 'path', 'handle', 'iter-path'] if '\r' in text else ['str', 'path', 'handle', 'sio', 'iter', 'iter-path'])
         if detectable(fmt, text) and rng.random() < 0.35:
             via = rng.choice(['auto', 'auto-sio'] if '\r' not in text else ['auto'])
         cases.append({'op': 'read', 'fmt': fmt, 'text': text, 'via': via})
@@ -959,7 +959,21 @@ class _Tmp:
 
 
 def do_write(b, fmt, via, d, mode='w', name='f'):
-    if via in ('str', 'sio', 'auto-sio', 'auto-bytes', 'auto-txt'):
+    if via == 'seqwrite':
+        # BioSeq.write / BioSeq.tofmtstr: FASTA sequence by sequence (mode 'a' per sequence, and the strings concatenated);
+        # the other formats hold one basket per file, so only a basket of one sequence can be written through its BioSeq
+        if fmt == 'fasta' and len(b):
+            p = d.path(name + '.sw.fasta')
+            for k, s in enumerate(b):
+                s.write(p, 'fasta', mode='a' if k else 'w')
+            with open(p, newline='') as f:
+                t = f.read()
+            assert t == ''.join(s.tofmtstr('fasta') for s in b), 'BioSeq.write and BioSeq.tofmtstr disagree'
+            return t
+        if len(b) == 1:
+            return b[0].tofmtstr(fmt)
+        return b.tofmtstr(fmt)
+    if via in ('str', 'sio', 'auto-sio', 'auto-bytes', 'auto-txt', 'iter', 'iter-path'):
         if via != 'sio':
             return b.tofmtstr(fmt)
         f = io.StringIO()
@@ -980,8 +994,17 @@ def do_write(b, fmt, via, d, mode='w', name='f'):
 def do_read(text, fmt, via, d):
     from sugar import read, BioBasket
     try:
-        if via == 'str':
+        if via in ('str', 'seqwrite'):
             return BioBasket.fromfmtstr(text, fmt=fmt)
+        if via == 'iter':           # iter_() has its own dispatch (iter_<fmt> | read_<fmt>) and sets meta._fmt itself
+            from sugar import iter_
+            return BioBasket(list(iter_(io.StringIO(text), fmt)))
+        if via == 'iter-path':
+            from sugar import iter_
+            p = d.path('i.' + EXT[fmt])
+            with open(p, 'w', newline='') as f:
+                f.write(text)
+            return BioBasket(list(iter_(p, fmt)))
         if via == 'sio':
             return read(io.StringIO(text), fmt)
         if via == 'auto-sio':
@@ -1316,6 +1339,13 @@ def split_model(case, m):
 
 
 def agree(case, implval, modelval):
+    if (case['op'] == 'byname' and isinstance(implval, list) and isinstance(modelval, list) and len(implval) == 3 and len(modelval) == 3
+            and implval[1] == 'sjson' and implval[:2] == modelval[:2] and isinstance(implval[2], list) and isinstance(modelval[2], list)
+            and implval[2][0] != modelval[2][0] and implval[2][1:] == modelval[2][1:]):
+        try:            # SJSON written by name: the JSON value counts, not its layout
+            return _json_docs(implval[2][0]) == _json_docs(modelval[2][0])
+        except Exception:
+            return False
     if (case['op'] == 'detect' and 'text' not in case and case['fmt'] == 'sjson' and isinstance(implval, list) and isinstance(modelval, list)
             and len(implval) == 3 and len(modelval) == 3 and implval[0] != modelval[0] and implval[1:] == modelval[1:]):
         # the bytes differ: the property is silent about the JSON layout, but not about the JSON value that is written
@@ -1857,7 +1887,9 @@ LEVEL_TEXT = ('Machine-checked Coq theorems about an executable model of the rea
               'domain reaches the fixpoint with the first written text (C01_*_reader_fixpoint); the five sniffers of /repo tried in '
               'plugin order recognise every written text of a non-empty basket as its own format - for SJSON on the bytes json.dump '
               'renders - so the round trip also holds when read() detects the format from the content (C01_written_detected, '
-              'C01_auto_roundtrip, C01_gff_fts_detected, C01_gff_fts_auto, C01_fasta_sniff_leading_ws, C01_jdump_no_tab); the last '
+              'C01_auto_roundtrip, C01_gff_fts_detected, C01_gff_fts_auto, C01_fasta_sniff_leading_ws, C01_fasta_sniff_leading_ws_any, '
+              'C01_jdump_no_tab); each plugin has exactly one reader and one writer entry point, so read() and iter_() run the same '
+              'function and "no read / write support" cannot happen (C01_plugins_complete); the last '
               'suffix of the base name decides the format of write(fname) whatever other dots, suffixes and directories the name has, '
               'names without suffix and hidden files have none (C01_basename_dir, C01_detect_ext_last_suffix, C01_ext_of_no_suffix, '
               'C01_ext_of_hidden, C01_ext_table_ok) and writing by name round-trips (C01_byname_roundtrip); interleaved Stockholm '
@@ -1865,7 +1897,8 @@ LEVEL_TEXT = ('Machine-checked Coq theorems about an executable model of the rea
               'C01_stk_interleave_n); at byte level: a parser for the subset of JSON sugar writes inverts the json.dump printer on '
               'every tree and with any trailing whitespace, so reading the characters of a written file is reading its content and '
               'the round trip holds on bytes for all four formats (C01_jparse_jdump, C01_jload_jdump, C01_read_bytes_written, '
-              'C01_bytes_roundtrip); mode "a": which plugin function write() calls for each format, the appended file is old + new '
+              'C01_bytes_roundtrip), and any characters read() decodes as SJSON give objects that are written and read back as exactly '
+              'themselves (C01_sjson_reader_fixpoint, no domain condition); mode "a": which plugin function write() calls for each format, the appended file is old + new '
               'characters, and a Stockholm file appended to reads back as its first alignment only, i.e. "append = concatenation" is '
               'a FASTA fact as documented (C01_append_dispatch, C01_append_file, C01_stk_append_reads_first); BioSeq(data, id, meta, '
               'type): data upper-cased, type given or inferred from the upper-cased letters, AssertionError for other types, id '
@@ -1886,7 +1919,8 @@ LEVEL_NOTE = ('Trusted: Coq kernel/vm_compute, translator (G_codes, G_c01_io), c
               'Stockholm ids distinct, not starting with "#" or "//", rows non-empty; residues are upper-cased by BioSeq(); '
               'GFF features: single location, seqid not ".", distinct sequence ids; detection theorems need a non-empty basket (an '
               'empty FASTA file is undetectable). '
-              'Tested only (not proved): transports (path, pathlib.Path, handle, StringIO, BytesIO, extension and content detection), '
+              'Tested only (not proved): transports (path, pathlib.Path, handle, StringIO, BytesIO, extension and content detection, '
+              'iter_(), BioSeq.write / BioSeq.tofmtstr sequence by sequence), '
               'SJSON/GFF feature content (C14/C02), the OS appending bytes in mode "a", archives, BioSeq(mapping with a "meta" key). '
               'Statement coverage of the modelled functions in the quick tier is complete except: def lines (executed at import, '
               'before measurement), main.py:314-316,403-404 (tool="biopython", Bio not installed), main.py:326 (no sequence plugin '
